@@ -29,6 +29,19 @@ func nameWord(s string) []Macro {
 	return ms
 }
 
+// shortString: a storage word holding a well-formed Solidity short string (1..31 bytes,
+// sometimes with leading zero bytes in the content).
+func shortString(r *RNG) string {
+	n := 1 + r.Intn(31)
+	w := make([]byte, 32)
+	copy(w, r.Bytes(n))
+	if r.P(1, 4) {
+		w[0] = 0
+	}
+	w[31] = byte(2 * n)
+	return hx(w)
+}
+
 func typeID(s string) string { return hx(append(make([]byte, 32-len(s)), []byte(s)...)) }
 
 // journalVar registers state variable `name` at `slot` (value type, offset 0) and
@@ -56,10 +69,19 @@ func genTreeScenario(seed uint64, o treeOpts) *Scenario {
 	for i := 0; i < n; i++ {
 		p := &Program{}
 		var pre, body, post []Macro
+		hasStr := false
 		if o.journal {
 			pre = append(pre, journalVar(fmt.Sprintf("v%d", i), 1)...)
 			if r.Bool() {
 				pre = append(pre, journalVar("shared", 2)...)
+			}
+			if r.P(2, 3) {
+				// a short string variable journaled with the reference-change instruction
+				hasStr = true
+				pre = append(pre, nameWord("str")...)
+				pre = append(pre, Macro{K: "op", Op: "RSVJNAL", A: []string{"0x200", "0x6", typeID("string")}})
+				pre = append(pre, Macro{K: "op", Op: "SSTORE", A: []string{"0x6", shortString(r)}})
+				pre = append(pre, Macro{K: "op", Op: "VRJNAL", A: []string{"0x6", typeID("string")}})
 			}
 		}
 		if o.wide && i < 2 {
@@ -172,6 +194,9 @@ func genTreeScenario(seed uint64, o treeOpts) *Scenario {
 			if r.Bool() {
 				val = hxu(uint64(r.Intn(60)))
 			}
+			if r.P(1, 5) {
+				val = "0xffffffffffffffff" // endowment nobody can pay: refused before any frame exists
+			}
 			cm := Macro{K: "create", Op: op, N: len(p.D) - 1, A: []string{val, hxu(uint64(r.Intn(2))), "0x300"}, Flag: "s:0x20"}
 			body = append(body, cm)
 			if op == "CREATE2" && r.P(1, 3) {
@@ -181,6 +206,10 @@ func genTreeScenario(seed uint64, o treeOpts) *Scenario {
 		post = append(post, Macro{K: "op", Op: "SSTORE", A: []string{"0x9", hxu(uint64(0x900 + i))}})
 		if o.journal {
 			post = append(post, Macro{K: "op", Op: "SSTORE", A: []string{"0x1", hxu(uint64(0x400 + r.Intn(2)))}}, journalChange(1))
+			if hasStr {
+				post = append(post, Macro{K: "op", Op: "SSTORE", A: []string{"0x6", shortString(r)}})
+				post = append(post, Macro{K: "op", Op: "VRJNAL", A: []string{"0x6", typeID("string")}})
+			}
 		}
 		p.M = append(p.M, pre...)
 		if len(body) > 0 {
@@ -263,5 +292,24 @@ func genTreeScenario(seed uint64, o treeOpts) *Scenario {
 		ex.Txs = append(ex.Txs, tx)
 	}
 	sc.Execs = []Exec{ex}
+	if (o.prop == "C07" || o.prop == "C08" || o.prop == "C04") && r.P(1, 60) {
+		// depth-limit variant: contract 0 calls itself with all gas until the 1024 limit refuses
+		// the call, then every level attempts a CREATE (refused for depth at the bottom levels)
+		deep := &Program{D: []DataBlob{{Prog: &Program{M: []Macro{{K: "term", Op: "STOP"}}}}}}
+		deep.M = []Macro{
+			{K: "call", Op: "CALL", A: []string{"GAS", contractAddr(0), "0x0", "0x0", "0x0", "0x0", "0x0"}, Flag: "s:0x10"},
+			{K: "if", A: []string{"CD:0x0"}, Body: []Macro{{K: "create", Op: "CREATE", N: 0, A: []string{"0x0", "0x0", "0x300"}, Flag: "s:0x20"}}},
+			{K: "term", Op: "STOP"},
+		}
+		for i := range sc.Accounts {
+			if sc.Accounts[i].Addr == contractAddr(0) {
+				sc.Accounts[i].Code = deep
+			}
+		}
+		sc.Bindings = nil
+		sc.Profile = "deep"
+		sc.Execs[0].Txs = sc.Execs[0].Txs[:1]
+		sc.Execs[0].Txs[0] = Tx{Kind: "call", From: eoaA, To: contractAddr(0), Gas: 1_000_000_000_000_000}
+	}
 	return sc
 }
